@@ -23,9 +23,7 @@ namespace avel {
         //=================================================
 
         explicit Denominator(Denom8u denom):
-            m(denom.m),
-            sh2(denom.sh2),
-            d(denom.d) {}
+            Denominator(vec16x8u{denom.value()}) {}
 
         explicit Denominator(vec16x8u d):
             Denominator(d, vec16x8u{8} - countl_zero(d - vec16x8u{1})) {}
